@@ -86,6 +86,7 @@ func (e *Engine) prepFunc(fi *FuncInfo) {
 		return
 	}
 	fi.loops = map[ast.Node]int{}
+	fi.rets = map[ast.Node]int{}
 	fi.boxed = map[*types.Var]bool{}
 	info := fi.Pkg.TypesInfo
 	n := 0
@@ -94,6 +95,8 @@ func (e *Engine) prepFunc(fi *FuncInfo) {
 		case *ast.ForStmt, *ast.RangeStmt:
 			n++
 			fi.loops[nd] = n
+		case *ast.ReturnStmt:
+			fi.rets[nd] = len(fi.rets) + 1
 		case *ast.UnaryExpr:
 			if x.Op == token.AND {
 				if id, ok := x.X.(*ast.Ident); ok {
@@ -212,7 +215,10 @@ func (e *Engine) VerifyFunc(fi *FuncInfo, fc *FuncContract) (rep funcReport) {
 		default:
 			panic(subsetErr{fmt.Sprintf("control flow escapes function body (%v %s)", o.kind, o.label)})
 		}
-		for _, fs := range fr.runDefers(o.st, 0) {
+		fr.deferredUnlock = true
+		finals := fr.runDefers(o.st, 0)
+		fr.deferredUnlock = false
+		for _, fs := range finals {
 			if fs.Infeasible() {
 				continue
 			}
